@@ -51,6 +51,11 @@ def gen_tasks(tier, seed):
     for s in seqs:
         tasks.append({"kind": "seq", "ops": s, "seed": rng.randrange(10 ** 6)})
     tasks.append({"kind": "getvalues"})
+    for k0 in range(6):
+        tasks.insert(0, {"kind": "xseq", "k0": k0, "timeout": 100 if tier == "quick" else 600})
+        if tier != "quick":
+            for k1 in range(6):
+                tasks.insert(0, {"kind": "xseq", "k0": k0, "k1": k1, "timeout": 900})
     for i, t in enumerate(tasks):
         t["tid"] = i
     return tasks
@@ -94,6 +99,8 @@ def run_task(task):
         _seq(task, res)
     elif kind == "getvalues":
         _getvalues(task, res)
+    elif kind == "xseq":
+        _xseq(task, res)
     return res
 
 
@@ -394,9 +401,138 @@ def _getvalues_problems():
     return pr
 
 
+XSEQ = None
+
+
+def _xseq_source(k0=0, k1=None):
+    from .. import xh
+    return xh.PRELUDE + xh.HX_WRAP + ("K0 = %d\nK1 = %r" % (k0, k1)) + '''
+from typing import List
+from crosshair.tracers import NoTracing
+from flowpaths.utils import solverwrapper as sw
+from fpverif import hx
+
+KINDS = ["qfix", "qlb", "fix", "obj", "obj0", "addvars"]
+
+def _conc(x, lo, hi):
+    for j in range(lo, hi + 1):
+        if x == j:
+            return j
+    return lo
+
+def _apply(ops):
+    """run the operations on a real SolverWrapper; return (expected state, snapshot)"""
+    w = sw.SolverWrapper()
+    vs = w.add_variables(list(range(3)), name_prefix="v", lb=0, ub=[3, 5, 1], var_type="integer")
+    var = [vs[i] for i in range(3)]
+    lb = [0.0] * 3
+    ub = [3.0, 5.0, 1.0]
+    cost = [1.0, 2.0, 0.0]
+    offset = 5.0
+    maximize = False
+    w.set_objective(var[0] + 2 * var[1] + 5, sense="minimize")
+    queued = dict()
+    log = []
+    for (k, j, val) in ops:
+        kind = KINDS[k]
+        j = j % len(var)
+        if kind in ("qfix", "qlb"):
+            if queued.get(j, kind) != kind:
+                continue                      # the relative order of the two queues is undocumented
+            queued[j] = kind
+        if kind == "qfix":
+            val = min(val, int(ub[j])) if ub[j] >= 0 else 0
+            w.queue_fix_variable(var[j], val)
+            lb[j] = ub[j] = float(val)
+        elif kind == "qlb":
+            val = min(val, int(ub[j]))
+            w.queue_set_var_lower_bound(var[j], val)
+            lb[j] = float(val)
+        elif kind == "fix":
+            w.fix_variable(var[j], val)
+            lb[j] = ub[j] = float(val)
+            for (kk, jj, vv) in log:
+                if jj == j and kk == "qfix":
+                    lb[j] = ub[j] = float(vv)
+                elif jj == j and kk == "qlb":
+                    lb[j] = float(vv)
+        elif kind == "obj":
+            w.set_objective(val * var[j] + 1, sense="maximize" if val % 2 else "minimize")
+            cost = [0.0] * len(var)
+            cost[j] = float(val)
+            offset = 1.0
+            maximize = bool(val % 2)
+        elif kind == "obj0":
+            w.set_objective((val + 1) * var[j], sense="minimize")
+            cost = [0.0] * len(var)
+            cost[j] = float(val + 1)
+            offset = 0.0
+            maximize = False
+        else:
+            nv = w.add_variables([len(var)], name_prefix="v", lb=1, ub=2, var_type="continuous")
+            var.append(nv[len(var)])
+            lb.append(1.0)
+            ub.append(2.0)
+            cost.append(0.0)
+        log.append((kind, j, val))
+    lp = hx.snapshot_unsolved(w)
+    return (lb, ub, cost, offset, maximize), lp
+
+def sequence(k: int, j0: int, j1: int, j2: int, v0: int, v1: int, v2: int) -> bool:
+    """
+    pre: 0 <= k < 6 and 0 <= j0 < 3 and 0 <= j1 < 3 and 0 <= v0 <= 2 and 0 <= v1 <= 2
+    pre: 0 <= j2 < 3 and 0 <= v2 <= 2
+    post: _
+    """
+    if K1 is None:
+        # two operations: the first kind is fixed per harness, everything else is symbolic
+        ops = [(K0, _conc(j0, 0, 2), _conc(v0, 0, 2)), (_conc(k, 0, 5), _conc(j1, 0, 2), _conc(v1, 0, 2))]
+    else:
+        ops = [(K0, _conc(j0, 0, 2), _conc(v0, 0, 2)), (K1, _conc(j1, 0, 2), _conc(v1, 0, 2)), (_conc(k, 0, 5), _conc(j2, 0, 2), _conc(v2, 0, 2))]
+    with NoTracing():
+        (lb, ub, cost, offset, maximize), lp = _apply(ops)
+        for c in range(lp.ncol):
+            if lp.lb[c] != lb[c] or lp.ub[c] != ub[c]:
+                return False
+        return [float(x) for x in lp.cost] == cost and lp.offset == offset and lp.maximize == maximize
+
+sequence(1, 0, 1, 2, 1, 1, 0)
+'''
+
+
+def _xseq(task, res):
+    from .. import xh
+    res["functions"] = ["SolverWrapper.queue_fix_variable/queue_set_var_lower_bound/_apply_pending_bound_updates/fix_variable/set_objective/add_variables (CrossHair, symbolic operation sequence)"]
+    src = _xseq_source(task["k0"], task.get("k1"))
+    out, cpu = xh.run_module(src, "c12_xseq", per_condition_timeout=task.get("timeout", 120))
+    res["solver_s"] += cpu
+    v = out.get("sequence", {"verdict": "error", "message": "no output"})
+    res["obligations"] += 1
+    res["queries"] += 1
+    res["nontrivial"] += 1
+    res["samples"].append({"harness": "fixed operation kinds %s, then symbolic (variables, values, last kind): 2 or 3 operations (kind in {queue_fix, queue_lb, fix, set_objective with/without constant, add_variables}, variable, value) on a real SolverWrapper; snapshot vs requested state" % ([task["k0"]] + ([task["k1"]] if task.get("k1") is not None else [])), "verdict": v["verdict"], "cpu_s": round(cpu, 1)})
+    if v["verdict"] == "confirmed":
+        res["discharged"] += 1
+    elif v["verdict"] == "counterexample":
+        call = xh.parse_call(v["message"])
+        _viol(res, "bounds-objective:symbolic-sequence", v["message"][:220], {**task, "call": call})
+    elif v["verdict"] == "error":
+        res["harness_errors"].append("crosshair failed on c12 xseq: " + v["message"][-600:])
+    else:
+        res["inconclusive"] += 1
+
+
 def replay(data):
     task = data["task"]
     sig = data["sig"]
+    if task["kind"] == "xseq":
+        from .. import xh
+        call = task.get("call")
+        if not call:
+            return False
+        r = xh.call_concretely(_xseq_source(task["k0"], task.get("k1")), "c12_xseq_replay", call[0], call[1], call[2])
+        print(f"  replay: {call} -> {r}")
+        return r is False
     kind = task["kind"]
     if kind == "seq":
         exp, lp, log = _run_seq(task)
@@ -453,7 +589,7 @@ ASSUMPTIONS = [
     "bounds have to be concrete floats when they cross into HiGHS, so bound pairs / range lists are enumerated and only the variable values are symbolic (z3 Int/Real)",
     "documented preconditions used: binary in {0,1}; lb <= continuous <= ub; for the integer helper additionally 0 <= integer <= ub and lb <= product <= ub; ranges non-overlapping except at endpoints, x in their union",
     "completeness of helpers with auxiliary variables uses the canonical witness (bit expansion / one-hot z)",
-    "queued-bound / objective sequences are executed concretely (seeded, up to 3 operations) and the snapshot is compared with the requested state; the symbolic-sequence harness is the CrossHair check in C12x (thorough)",
+    "queued-bound / objective sequences: every sequence of 2 operations (thorough: 3 operations; 6 kinds x 3 variables x 3 values per step) is covered by CrossHair harnesses on a real SolverWrapper (leading kinds fixed per harness, the rest symbolic); in addition seeded sequences of up to 3 operations with wider values are executed concretely; the snapshot is compared with the requested state",
 ]
 
 
